@@ -126,11 +126,12 @@ static MTemplate base_template(const std::string& name, int k, const char* n0 = 
     return t;
 }
 
-extern "C" void harness_graph()  /* vf: bounds=2_templates;3_locations;2_edges_with_any_location_endpoints(self_loops,parallel_edges);controllable_absent/true/false;initial_location_index;urgent/committed_endpoints;location_names_from_a_pool(Err,lpmin,lt,amp,quot) reach=end */
+extern "C" void harness_graph()  /* vf: bounds=2_templates;3_locations;2_edges_with_any_location_endpoints(self_loops,parallel_edges);controllable_absent/true/false;initial_location_index;urgent/committed_endpoints;location_names_from_a_pool(Err,lpmin,lt,amp,quot,names_of_15..32_characters) reach=end */
 {
-    static const char* NAMES[][3] = {{"A", "B", "C"}, {"Err", "lpmin", "lt"}, {"amp", "quot", "gt"}};
+    // names of every length class: short (held inside the string object), at and beyond the 15/16 character boundary (held on the heap)
+    static const char* NAMES[][3] = {{"A", "B", "C"}, {"Err", "lpmin", "lt"}, {"amp", "quot", "gt"}, {"Fifteen_chars_15", "WaitingForAcknowledgement", "a_name_of_exactly_thirty_two_chr"}};
     MModel m; m.gdecl = GDECL; m.system = "system T, U;";
-    int np = vf_pick("!names", 3);
+    int np = vf_pick("!names", 4);
     MTemplate t = base_template("T", 0, NAMES[np][0], NAMES[np][1], NAMES[np][2]), u = base_template("U", 1);
     for (int e = 0; e < 2; e++) {
         MEdge me; std::string n = std::to_string(e);
@@ -147,6 +148,27 @@ extern "C" void harness_graph()  /* vf: bounds=2_templates;3_locations;2_edges_w
 #endif
     MEdge f; f.src = 1; f.dst = 2; f.sync = "bc!"; u.edges = {f}; u.init = 2;
     m.templs = {t, u};
+    run(m);
+    vf_reach("end");
+}
+
+// any number of self loops on one location (the writer lays them out four to a quadrant), each with labels of its own, next to ordinary edges
+extern "C" void harness_self_loops()  /* vf: bounds=1..7_self_loops_on_one_location(named_A_/_lpmin_/_Err),each_with_guard_and_update,optional_synchronisation_on_the_last;one_ordinary_edge_before_or_after reach=end */
+{
+    MModel m; m.gdecl = GDECL; m.system = "system T;";
+    static const char* LN[] = {"B", "lpmin", "Err"};
+    int n = vf_range("!self_loops", 1, 7), ln = vf_pick("!loop_location_name", 3), where = vf_pick("!ordinary_edge_first", 2), on = vf_pick("!loops_on", 2);
+    MTemplate t = base_template("T", 0, "A", LN[ln], "C");
+    MEdge o; o.src = 0; o.dst = 2; o.guard = "g < 9"; o.assign = "h = 9";
+    if (where) t.edges.push_back(o);
+    for (int e = 0; e < n; e++) {
+        MEdge me; me.src = me.dst = on ? 1 : 0;
+        me.guard = "g < " + std::to_string(10 + e); me.assign = "h = " + std::to_string(20 + e);
+        if (e == n - 1) me.sync = "bc!";
+        t.edges.push_back(me);
+    }
+    if (!where) t.edges.push_back(o);
+    m.templs = {t};
     run(m);
     vf_reach("end");
 }
